@@ -246,6 +246,10 @@ def run(cx):
                 r_shadow.ok(f"{label[:60]}: shadows consistent", n=max(1, run_.oblig - run_.writes))
     cx.extra["programs"] = n_prog
 
+    # ---- C04-BIND (shared with C08): the IR carries what the call supplied ------------------------
+    from . import c08
+    c08.bind_rule(cx, "C04-BIND", "C04-MAP", only=("Led", "RGBLed", "Servo", "DCMotor"), floor=100)
+
     # ---- C04-GETTER --------------------------------------------------------------------------
     r = cx.rule("C04-GETTER", "each state-query expression produced by the parser names exactly the shadow variable the emitter maintains for that device, with a compatible C++ type", floor=10)
     tce = pm.func("_to_c_expr")
